@@ -32,7 +32,7 @@ Judge(e, mm, h, mseq) ==
          [] a.k = "addiov"    -> JudgeAddIOV(e)
          [] a.k = "rmiov"     -> JudgeRmIOV(e, undoes)
          [] a.k = "transform" -> JudgeTransform(e)
-         [] a.k = "allometry" -> JudgeAllometry(e, Noop(mm, a))
+         [] a.k = "allometry" -> JudgeAllometry(e, Noop(mm, a), AlloVolumeTargets(mm, a))
          [] a.k = "seterr"    -> JudgeSetErr(e)
          [] a.k = "rmerr"     -> JudgeRmErr(e)
          [] a.k = "power"     -> JudgePower(e)
@@ -40,7 +40,7 @@ Judge(e, mm, h, mseq) ==
          [] a.k = "timevar"   -> JudgeTimeVar(e)
          [] a.k = "weighted"  -> JudgeWeighted(e)
          [] a.k \in {"abs", "transit"} -> JudgeAbs(e, Apply(mm, a).abs, Apply(mm, a).transits)
-         [] a.k = "reread" -> V(None, None, None, None, None)      \* a generator step: nothing of this property to judge
+         [] a.k \in {"reread", "elim"} -> V(None, None, None, None, None)      \* a generator step: nothing of this property to judge
          [] OTHER -> V("bad", None, None, None, None)
 
 \* one event = one action of the machine + the contract on the logged values
